@@ -249,6 +249,9 @@ def run_property(pid, rules, tier, explanation, declined, configs=None, replay=N
             print('VIOLATION property=%s replay=%s' % (pid, path))
             print('  rule %s at %s [%s]: %s' % (o.rule, o.loc, o.site, o.detail))
 
+    if os.environ.get('OPTREE_VERIF_LIST'):
+        for o in all_obs:
+            print('  [%s] %s @%s %s' % (o.status, o.key, o.loc, (o.detail or '')[:160]))
     counted = [o for o in all_obs if o.status in ('ok', 'violated')]
     discharged = [o for o in all_obs if o.status == 'ok']
     distinct = len({o.key for o in counted})
